@@ -126,15 +126,19 @@ def register(props):
                 "c09describe generator's output); every single structural mutation at every node — delete an entry / item, rename "
                 "a key, retype a key, duplicate an entry / item, retype a value (nil, string, number, bool, list, map), re-point a "
                 "string at every other string seen under the same key or a fresh one, flip booleans, boundary numbers — complete at "
-                "the link-sensitive places (type_id, id, root, default, pattern) and a seeded 30 % sample elsewhere in the quick "
+                "the link-sensitive places (type_id, id, root, default, pattern, namespace) and a seeded 30 % sample elsewhere in the quick "
                 "tier, complete in the thorough tier; sampled double mutations; grammar-free random trees; the hand-written D30/D32 "
-                "witnesses; UnserializeScope / UnserializeSchema / Client.ReadSchema (a scripted plugin sends the hello over a pipe) "
+                "witnesses, each data schema of them placed as an output, a signal handler, a signal emitter, and as a handler / an emitter of "
+                "a step whose handler and emitter maps SHARE a key; a third of the generated steps emit signals under the very keys under "
+                "which they handle signals; the namespace of every reference is re-pointed at every other namespace seen and a fresh "
+                "one (complete, like the other link-sensitive places); UnserializeScope / UnserializeSchema / Client.ReadSchema (a scripted plugin sends the hello over a pipe) "
                 "in the supervised worker, then GetDefaults, SelfSerialize, Properties, ValidateReferences and Unserialize / "
                 "ValidateCompatibility / Validate / Serialize (also of the unserialized value and back) on every step input, "
                 "output and signal schema with generated and fixed inputs, the first four generated inputs also with every number "
                 "written as its decimal text (numbers given as strings go through the units parser and the string mappers), plus "
                 "the data operations on EVERY object of every scope table (reachable from the root or not), plus two inputs "
-                "derived from the ACCEPTED schema itself through its public accessors (every property of every object, one item / "
+                "derived from the ACCEPTED schema itself through its public accessors (every property of every object — a property typed "
+                "by a reference the loader left unlinked is SET too —, one item / "
                 "entry per container, the first member of every one-of; numbers as numbers and as text): whatever the loader let "
                 "through is used where it sits; distinct by case text; non-trivial = carries a top-level "
                 "key of the meta-schema or is accepted",
